@@ -6,6 +6,7 @@
 import SymfcModel.Model.Inst
 import SymfcModel.Lemmas.LinAlg
 import SymfcModel.Lemmas.HomogeneousMat
+import SymfcModel.Gen.ApiDataflow
 namespace Symfc.C13
 open Symfc Matrix
 
@@ -79,5 +80,21 @@ theorem scaled_dataset_gives_the_same_fits (c : Cell) (od : OrderData) (u : Arra
         = (Homogeneous.designMatrix K c od u)ᵀ *ᵥ y := by
   rw [Homogeneous.designMatrix_scale]
   exact scaling_irrelevant _ y (s : K) od.k hs cf
+
+/-- the API hands the dataset it stores — unchanged, whole, in the stored order — to every solver, and a dispatch branch
+    of `Symfc.solve` does nothing but look the basis sets up, call the solver, select the layout and store the result
+    (facts regenerated from api_symfc.py): the theorems of this file about the fit therefore speak about what a user
+    gets from `Symfc.run` / `Symfc.solve` for the arrays supplied -/
+theorem api_hands_the_stored_dataset_unchanged_to_every_solver :
+    Gen.solveTopLevel = ["self._check_dataset()", "orders = self._check_orders(max_order, orders)", "<dispatch>",
+                         "return self"]
+    ∧ Gen.solverDatasetArgs = List.replicate 6 ["self._displacements", "self._forces"]
+    ∧ Gen.solverBasisArgs = ["basis_set", "basis_set", "basis_set", "[basis_set_o2,basis_set_o3]",
+                             "[basis_set_o3,basis_set_o4]", "[basis_set_o2,basis_set_o3,basis_set_o4]"]
+    ∧ Gen.solveBranchKinds = [["basis", "solve", "select"], ["basis", "solve", "select"], ["basis", "solve", "select"],
+                              ["basis", "basis", "solve", "select", "store", "store"],
+                              ["basis", "basis", "solve", "select", "store", "store"],
+                              ["basis", "basis", "basis", "solve", "select", "store", "store", "store"]] := by
+  decide
 
 end Symfc.C13
